@@ -10,6 +10,16 @@ NOT_APPLICABLE = {
 for k in ['C01','C02','C03','C04','C05','C06','C07','C10','C11','C12','C13','C14','C15','C16','C17','C18','C19','C20']:
     NOT_APPLICABLE.setdefault(k, UNDER)
 CHECKS = {
+ 'C01': {
+  'text': 'Verus proves full inductive contracts, over a forest specification library (well-formed subtree = every referenced node exists, children are Tree/Item references, no item or node reachable twice), for the real recursive tree surgery: delete_items_in_file (result = items of the subtree minus the deleted ids; the returned id roots a well-formed subtree over exactly those items after write-back; edits confined to the subtree; every dropped node is scheduled for deletion, i.e. no orphan; a subtree that fits one bucket is one bucket) and insert_items_in_file (result roots a well-formed subtree over old items plus inserted ones; reference kind preserved unless a single item grows into a fresh bucket; fresh ids only from the generator; rewritten splits reference the new children), plus ImmutableLeafs::new (candidates = selected + remaining, disjoint), item_indices, reset_and_retrieve_updated_items, the single-bucket shortcut and clear_tree_nodes. Each contract is proved for all tree shapes, ids, capacities >= 1 and all outcomes of float/RNG decisions.',
+  'note': 'PARTIAL: the per-function contracts above are discharged; make_tree_in_file, the loop drivers (delete_items_from_trees, insert_items_in_current_trees, incremental_index_large_descendants, delete_extra_trees/delete_tree) and the composition into "build ok => forest_ok" are NOT under contract yet (listed in the evidence). TmpNodes, the frozen readers and the id generator are assumed stand-ins (drift-guarded; the generator contract is the one proved in C13).',
+  'technique': 'Verus inductive contracts + lemma library on extracted real recursive functions',
+ },
+ 'C14': {
+  'text': 'Verus proves on the real ImmutableLeafs::new, for every memory value (the page budget is uninterpreted): the candidate ids are split into the selected ids and the ids left for the next pass with nothing lost or duplicated, ids are taken in ascending order, and a non-empty candidate set always yields a non-empty selection (progress of every batching pass); and the per-tree contracts of C01 (insert / delete) hold for every available_memory because it is unconstrained in them.',
+  'note': 'PARTIAL: termination of the outer batching loops and the known re-queue livelock for capacities >= 200 with tiny memory are not decided (see not_decided_clauses).',
+  'technique': 'Verus postconditions + loop invariants on the extracted real function',
+ },
  'C03': {
   'text': 'Verus proves on the real Reader::nns_by_leaf (arbitrary count, search_k, oversampling, candidates; any database whose nodes are locally well-formed): at most count results; pairwise distinct ids; every id has an Item key in the snapshot and lies in the candidate filter; each reported distance is normalized_distance(built_distance(query, CURRENT leaf of that id), declared dimension); results are ordered nearest first (ties by id) in OrderedFloat order; the budget actually used is search_k, or count x number-of-trees saturating, times oversampling, or the metric default, saturating (assertion inside the function; Kani checks the per-metric default constants 1/1/1/1/3/3/3); no panic (unwrap_item, unreachable!, ilog2 of 0, overflow). Reader::nns starts with no budget/oversampling/filter; by_item on an unknown id returns Ok(None); by_vector rejects a wrong length (C19).',
   'note': 'PARTIAL: budget monotonicity, unlimited-budget exactness under a filter and the by_item/by_vector equivalence are not decided (see evidence not_decided_clauses).',
